@@ -396,7 +396,7 @@ PROPS = {
     "C14": seq_loom_property(),
     "C15": seq_loom_property(),
     "C16": type_property,
-    "C17": seq_property(),
+    "C17": seq_loom_property(),
     "C18": seq_property(),
     "C19": seq_property(miri=True),
     "C20": seq_property(miri=True),
